@@ -64,6 +64,20 @@ def respond (line : String) : String :=
        | .ok (v, r) => s!"ok {showValue v} {r.length}"
        | .error e => s!"err {e}")
     | _, _, _, _, _, _ => "bad-request"
+  | [.atom "sinkwriteall", .list steps, payload] =>
+    let script := steps.filterMap (fun (st : Sexp) => match st with
+      | .list [.atom "a", k] => (atomNat? k).map SinkStep.accept
+      | .list [.atom "f", .atom "1"] => some (SinkStep.fail true)
+      | .list [.atom "f", .atom "0"] => some (SinkStep.fail false)
+      | _ => none)
+    match atomBytes? payload with
+    | some b =>
+      let (st', r) := Sink.writeAll { script := script, delivered := [] } b
+      (match r with
+       | .ok _ => s!"ok {hex st'.delivered}"
+       | .error .writeZero => s!"err write-zero {hex st'.delivered}"
+       | .error _ => s!"err io {hex st'.delivered}")
+    | none => "bad-request"
   | _ => "bad-request"
 
 partial def loop (h : IO.FS.Stream) (out : IO.FS.Stream) : IO Unit := do
